@@ -21,6 +21,9 @@ THEOREMS = ['Tbox.C14.' + t for t in [
     'C14_server_request_answer', 'C14_handler_cleanup_counterexample', 'C14_server_respond_unchecked',
     'C14_world_peer_simulation', 'C14_world_callback_once', 'C14_world_callback_exactly_once',
     'C14_timer_phase', 'C14_deadline_ms', 'C14_deadline_reached',
+    'C14_id_width', 'C14_callback_once_any_ids', 'C14_id_wrap_counterexample',
+    'C14_dispatch_batch', 'C14_dispatch_ids', 'C14_response_id_total',
+    'C14_getfield_untouched', 'C14_getfield_unsigned_truncates',
 ]]
 SOURCES = ['modules/jsonrpc/proto.cpp', 'modules/jsonrpc/rpc.cpp',
            'modules/jsonrpc/protos/header_stream_proto.cpp', 'modules/jsonrpc/protos/raw_stream_proto.cpp',
@@ -40,8 +43,14 @@ TRUSTED = [
     'model lean/TboxModel/C14/Model.lean is hand-written from header_stream_proto.cpp, raw_stream_proto.cpp, packet_proto.cpp, '
     'util/json.cpp FindEndPos, util/serializer.cpp, rpc.cpp, timeout_monitor_impl.hpp; tied by trace acceptance on every run',
     'nlohmann::json parse/dump is abstract: the acceptor takes the implementation\'s parse outcome per frame text as an oracle '
-    '(must be a function of the text within a case; texts written by the real encoder must parse); Proto::onRecvJson dispatch is '
-    'observed (callbacks must be a function of the frame text) but not modelled',
+    '(must be a function of the text within a case; texts written by the real encoder must parse); Proto::onRecvJson dispatch and the '
+    'util::json GetField/Has*Field family are modelled on an abstract JSON value (`recvJson`, `getField`) and compared on generated value '
+    'descriptions (`pj`, `gf`, `hf` ops: every message kind, batches, ids/codes of every JSON type and width)',
+    'length sweeps (`lensweep`, `rpcsweep`) are self-checking harness ops: the harness runs the real encoder -> real decoder (and two real '
+    'Rpc objects with an echo service) at every text length and reports the first length that does not round-trip; the acceptor demands '
+    'none, which is what C14_header_roundtrip / C14_raw_roundtrip / C14_packet_roundtrip / C14_callback_response state for every length',
+    'Rpc::id_alloc_ is set by the harness through a private-member pointer obtained by explicit template instantiation (`jump`, test-only); '
+    'request() at id_alloc_ == INT_MAX (its ++ would be a signed overflow) is refused on both sides (event `misuse`), never executed',
     'the receive loop around onRecvData (consume ret while ret>0, stop on 0, give up on ret<0) is the harness\'s, as in examples/jsonrpc',
     'isgraph() is modelled for the "C" locale; FindEndPos levels are unbounded integers (input < 2^31 bytes)',
     'virtual time by libc interposition (harness/vtime.h); the 1-s timer is the real event loop\'s',
@@ -50,7 +59,9 @@ TRUSTED = [
     'the nesting budget of the model (32 levels) is never reached by generated programs (the acceptor rejects `overflow`)',
 ]
 ASSUMPTIONS = ['message text shorter than 2^32 bytes (the encoder truncates the length field otherwise)',
-               'stack depth of Proto::onRecvJson is exercised by the harness only (deep op), not expressible in the model']
+               'stack depth of Proto::onRecvJson is exercised by the harness only (deep op), not expressible in the model',
+               'fewer than 2^31 requests with a completion callback per Rpc object: the 2^31-th executes a signed overflow of id_alloc_ '
+               '(C14_id_wrap_counterexample shows what the wrap does to exactly-once; C14_callback_once_any_ids: at-most-once survives it)']
 RULE = ('framing cases: messages generated as JSON (nested, quotes/backslashes/brackets in strings, non-ASCII) through the real '
         'encoder, fed back unsegmented, at every 2-way split, byte-wise and at random cuts, concatenated; literal streams with '
         'hand-built headers incl. extreme length fields and wrong magic; hostile bracket/quote-heavy bytes; deep arrays. '
@@ -58,6 +69,11 @@ RULE = ('framing cases: messages generated as JSON (nested, quotes/backslashes/b
         'respond, feed a response frame to the object\'s own proto, addService, cleanup on the same real Rpc, nested) + requests/'
         'notifications/responses (known, duplicate, late, unknown, beyond-int ids)/inbound requests/respond()/addService/cleanup/clock '
         'advances; world cases: two real Rpc peers running the same program over a scripted dropping/duplicating/reordering pipe. '
+        'round 6: real encoder -> real decoder at every text length 0..4200 (thorough: ..70000) and around 2^13..2^16, 2^16+6, 2^20 for all three '
+        'framings and three message kinds, each followed by a small message; the same through two real Rpc objects; padded requests of chosen '
+        'exact lengths compared byte for byte with the model; ids at INT_MAX through a test-only counter jump, backward jumps (id reuse); '
+        'onRecvJson on described JSON values (every kind/defect, batches); GetField/Has*Field; transport down, transport answering inside the '
+        'send callback, 512 slots, clock jumps beyond 2^31 ms; receive buffers at every alignment 0..7. '
         'non-trivial = the model run resumes a frame across segments, decodes several frames from one segment, meets an extreme '
         'length field / unbalanced text / parse failure, fires a timeout, ignores a late/duplicate/unknown response, or a callback '
         're-enters the object (nested completion, request/respond/cleanup/service change from inside a callback); distinct = distinct op text')
@@ -399,6 +415,206 @@ def gen_world(rng):
     return ops
 
 
+
+# ------------------------------------------------------------------ round 6: lengths, ids, dispatch, getters, faults
+
+INT_MAX = 2147483647
+WINDOWS = [1 << 13, 1 << 14, 1 << 15, 1 << 16, (1 << 16) + 6, 1 << 20]
+
+
+def gen_lensweeps(tier):
+    """encoder -> decoder round trip on the real code at EVERY text length (all three framings, three message kinds,
+    each followed by a small message), plus windows around the powers of two; the same through two real Rpc objects"""
+    q = tier == 'quick'
+    for k in ('H 15962', 'R', 'P'):
+        ops = ['open 0 %s' % k, 'lensweep 0 0 4200']
+        for w in WINDOWS:
+            ops.append('lensweep 0 %d %d' % (w - 8, w + 8))
+        yield ops
+    for k in 'HRP':
+        yield ['rpcsweep %s 0 4200' % k]
+        yield ['rpcsweep %s %d %d' % (k, (1 << 16) - 60, (1 << 16) + 20), 'open 0 R', 'feed 0 5b5d']
+    if not q:
+        step = 2500
+        for lo in range(4201, 70001, step):
+            yield ['open 0 H 15962', 'lensweep 0 %d %d' % (lo, min(lo + step - 1, 70000))]
+        for k in ('R', 'P'):
+            for lo in range(4201, 20001, step):
+                yield ['open 0 %s' % k, 'lensweep 0 %d %d' % (lo, min(lo + step - 1, 20000))]
+        for k in 'HRP':
+            for lo in range(4201, 20001, step):
+                yield ['rpcsweep %s %d %d' % (k, lo, min(lo + step - 1, 20000))]
+        for k in 'HRP':
+            yield ['rpcsweep %s %d %d' % (k, (1 << 20) - 50, (1 << 20) + 10)]
+        yield ['open 0 H 15962', 'lensweep 0 %d %d' % ((1 << 24) - 7, (1 << 24) - 5), 'lensweep 0 %d %d' % ((1 << 24) - 1, (1 << 24) + 1)]   # top byte of the length field
+
+
+def padded_text_len(idv, pad):
+    return len('{"id":%d,"jsonrpc":"2.0","method":"m","params":"%s"}' % (idv, 'a' * pad))
+
+
+def gen_padded(rng):
+    """the same through the model: a request whose text has exactly a chosen length is written by the real encoder, compared
+    byte for byte with the model's `encodeHeader`, and fed back whole / split inside the header / split at the end"""
+    k = rng.choice(['H', 'H', 'R', 'P'])
+    L = rng.choice([1454, 1455, 1460, 1461, 1466, 255, 256, 257, 4095, 4096, 4097, (1 << 13) - 6, 1 << 13, (1 << 14) + 1,
+                    (1 << 15) - 1, 1 << 15, (1 << 16) - 7, (1 << 16) - 6, (1 << 16) - 1, 1 << 16, (1 << 16) + 1, (1 << 16) + 6,
+                    rng.randrange(60, 70000), rng.randrange(60, 9000)])
+    base = padded_text_len(1, 0)
+    pad = max(L - base, 0)
+    ops = ['open %d %s' % (s, 'H 15962' if k == 'H' else k) for s in range(3)]
+    ops.append('sendq 0 1 6d %s' % hx('"' + 'a' * pad + '"'))
+    ops.append('sendq 0 2 6e -')
+    if k == 'P':
+        ops += ['feedsent 1 0 -', 'feedsent 1 1 -']
+    else:
+        ops += ['feedsent 1 0+1 -', 'feedsent 2 0+1 %s' % ','.join(map(str, sorted({3, 6, 7, base + pad - 1, base + pad + (6 if k == 'H' else 0)})))]
+    return ops
+
+
+def jdesc(rng, depth=0):
+    r = rng.random()
+    if depth >= 3 or r < 0.45:
+        return rng.choice(['n', 't', 'f', 'd', 'D', 'i0', 'i1', 'i-1', 'i7', 'i2147483647', 'i2147483648', 'i-2147483648', 'i-2147483649',
+                           'i4294967297', 'i18446744073709551615', 'i18446744073709551616', 'i-9223372036854775808',
+                           'i-9223372036854775809', 's', 's61', 's' + hx('x"y\\'), 's' + hx('[{'), 's312e30'])
+    if r < 0.7:
+        return '[' + ','.join(jdesc(rng, depth + 1) for _ in range(rng.choice([0, 1, 2, 3]))) + ']'
+    keys = rng.sample(['a', 'b', 'id', 'code', 'k"', ''], rng.choice([0, 1, 2, 3]))
+    return '{' + ','.join((hx(k) if k else '') + ':' + jdesc(rng, depth + 1) for k in keys) + '}'
+
+
+ID_DESCS = ['i1', 'i2', 'i0', 'i-5', 'i2147483647', 'i2147483648', 'i-2147483648', 'i-2147483649', 'i4294967297', 'i18446744073709551617',
+            'd', 'D', 's31', 's', 'n', 't', '[i1]', '{' + hx('a') + ':i1}']
+
+
+def jmsg(rng):
+    """one JSON-RPC shaped object description: every message kind, with every kind of defect"""
+    f = {}
+    r = rng.random()
+    if r < 0.72: f['jsonrpc'] = 's' + hx('2.0')
+    elif r < 0.90: f['jsonrpc'] = rng.choice(['s' + hx('1.0'), 's' + hx('1.0'), 's' + hx('2'), 's' + hx('2.00'), 'i2', 'd', 'n', 's'])
+    if rng.random() < 0.8: f['id'] = rng.choice(ID_DESCS)
+    kind = rng.randrange(8)
+    if kind in (0, 1, 6):
+        f['method'] = rng.choice(['s' + hx('m'), 's' + hx('a.b'), 's', 'i5', 'n', '[]']) if rng.random() < 0.3 else 's' + hx('m')
+        if rng.random() < 0.7: f['params'] = jdesc(rng, 1)
+    if kind in (2, 6, 7):
+        f['result'] = jdesc(rng, 1)
+    if kind in (3, 4, 7):
+        e = {}
+        if rng.random() < 0.85: e['code'] = rng.choice(['i5', 'i-32000', 'i0', 'i2147483648', 'd', 's35', 'n'])
+        if rng.random() < 0.5: e['message'] = 's' + hx('x')
+        f['error'] = rng.choice(['s' + hx('e'), 'n', '[]', 'i1']) if rng.random() < 0.15 else \
+            '{' + ','.join(hx(k) + ':' + v for k, v in e.items()) + '}'
+    items = list(f.items())
+    rng.shuffle(items)
+    return '{' + ','.join(hx(k) + ':' + v for k, v in items) + '}'
+
+
+def gen_dispatch(rng):
+    """Proto::onRecvJson on every message kind / defect, batches with nested arrays and non-objects, through all three framings"""
+    ops = ['open 0 H 15962', 'open 1 R', 'open 2 P']
+    for _ in range(rng.choice([2, 4, 6])):
+        r = rng.random()
+        if r < 0.5: d = jmsg(rng)
+        elif r < 0.92:
+            def batch(depth):
+                out = []
+                for _ in range(rng.choice([1, 2, 3, 4])):
+                    x = rng.random()
+                    if x < 0.7: out.append(jmsg(rng))
+                    elif x < 0.8 and depth < 3: out.append(batch(depth + 1))
+                    else: out.append(jdesc(rng, 2))
+                return '[' + ','.join(out) + ']'
+            d = batch(0)
+        else: d = jdesc(rng)
+        if d[0] not in '[{': d = '[' + d + ']'
+        ops.append('pj %d %s' % (rng.randrange(3), d))
+    return ops
+
+
+def gen_getters(rng):
+    ops = []
+    for _ in range(rng.choice([3, 6, 10])):
+        v = jdesc(rng, 2)
+        obj = rng.choice(['{%s:%s}' % (hx('k'), v), '{%s:%s}' % (hx('k'), v), '{%s:%s,%s:i3}' % (hx('k'), v, hx('z')), '[%s]' % v, v, '{}'])
+        key = rng.choice([hx('k'), hx('k'), hx('k'), hx('k'), hx('z'), hx('q'), '-'])
+        if rng.random() < 0.7:
+            kind = rng.choice('buids')
+            if rng.random() < 0.5:      # a value of the wanted type, in and out of range
+                v = {'b': rng.choice(['t', 'f']), 'u': rng.choice(['i0', 'i7', 'i4294967295', 'i4294967296', 'i4294967297', 'i-1']),
+                     'i': rng.choice(['i0', 'i-7', 'i2147483647', 'i2147483648', 'i-2147483648', 'i-2147483649']),
+                     'd': rng.choice(['d', 'D', 'i3', 'i18446744073709551616']), 's': rng.choice(['s', 's' + hx('old'), 's' + hx('x')])}[kind]
+                obj = '{%s:%s}' % (hx('k'), v); key = hx('k')
+            ops.append('gf %s %s %s' % (kind, obj, key))
+        else: ops.append('hf %s %s %s' % (rng.choice('oabnfius'), obj, key))
+    return ops
+
+
+def gen_ids(rng):
+    """requests whose ids are at the top of the range of int (counter set by the test-only `jump`), answered with ids on
+    both sides of INT_MAX / 2^32; the request at id_alloc_ == INT_MAX is refused; backward jumps reuse ids that are still
+    pending or still in the timeout ring"""
+    n = rng.choice([1, 2, 3])
+    ops = ['rpc %s %d' % (rng.choice('HRP'), n), 'cb', 'cb q0.0', 'cb i%d:0' % rng.choice([INT_MAX, INT_MAX - 1, 1])]
+    if rng.random() < 0.6:
+        j = INT_MAX - rng.choice([0, 1, 2, 3, 5])
+        ops.append('jump %d' % j)
+        for _ in range(rng.choice([1, 2, 4, 6])):
+            r = rng.random()
+            if r < 0.5: ops.append('req %d 0' % rng.choice([0, 0, 1, 2]))
+            elif r < 0.85:
+                ops.append('rsp %d %d' % (rng.choice([INT_MAX, INT_MAX - 1, INT_MAX - 2, INT_MAX + 1, -INT_MAX - 1, (1 << 32) + INT_MAX,
+                                                        (1 << 32) - 1, 1, 0, -1]), rng.choice(CODES)))
+            else: ops.append('adv 1000')
+    else:
+        for _ in range(rng.choice([1, 2, 3])): ops.append('req %d 0' % rng.choice([0, 0, 2]))
+        if rng.random() < 0.5: ops.append('rsp 1 0')
+        if rng.random() < 0.5: ops.append('adv 1000')
+        ops.append('jump %d' % rng.choice([0, 0, 1, 2]))
+        for _ in range(rng.choice([1, 2, 3])):
+            ops.append(rng.choice(['req 0 0', 'req 0 0', 'rsp 1 0', 'rsp 2 5', 'adv 1000', 'jump 0', 'jump 7']))
+    ops += ['adv %d' % ((n + 1) * 1000), 'adv 4000']
+    return ops
+
+
+def gen_faults(rng):
+    """transport down while requests are pending (they still complete by timeout, once); the transport answering from
+    inside the send callback; many slots; clock jumps beyond 2^31 ms"""
+    n = rng.choice([1, 2, 3, 3, 16, 100, 512])
+    ops = ['rpc %s %d' % (rng.choice('HRP'), n), 'cb', 'cb n1', 'cb i1:0 i2:5', 'hd s0', 'hd as', 'svc 0 0', 'svc 1 1']
+    big = [2147483647, 2147483648, 2147483649, 4294967296, 4294968296, 3000000000]
+    for _ in range(rng.choice([4, 8, 12])):
+        r = rng.random()
+        if r < 0.15: ops.append('tx off')
+        elif r < 0.25: ops.append('tx on')
+        elif r < 0.45: ops.append('req %d %d' % (rng.randrange(3), rng.choice([0, 1])))
+        elif r < 0.60: ops.append('reqsync %d 0 %d' % (rng.randrange(3), rng.choice(CODES)))
+        elif r < 0.70: ops.append('inreq %d %d' % (rng.randrange(1, 5), rng.choice([0, 1, 2])))
+        elif r < 0.78: ops.append('srsp %d 0' % rng.randrange(1, 5))
+        elif r < 0.86: ops.append('rsp %d %d' % (rng.randrange(1, 6), rng.choice(CODES)))
+        elif r < 0.95: ops.append('adv %d' % rng.choice([500, 1000, 1000, n * 1000, n * 1000 - 1]))
+        else: ops.append('adv %d' % rng.choice(big))
+    ops += ['adv %d' % ((n + 1) * 1000), 'adv %d' % rng.choice(big + [5000])]
+    return ops
+
+
+def gen_rawbig(rng):
+    """a large raw-stream value (nested, strings full of brackets and escapes) arriving in chunks: the decoder rescans from the
+    start on every call and must answer 0 until the last chunk"""
+    depth = rng.choice([1, 3, 8])
+    n = rng.choice([200, 2000, 12000])
+    body = ','.join(json.dumps(rng.choice(STRS) * rng.choice([1, 3])) for _ in range(n // 8))
+    text = '[' * depth + body + ']' * depth
+    k = rng.choice(['R', 'R', 'H 15962'])
+    ops = ['open 0 %s' % k, 'open 1 %s' % k, 'sendq 0 1 6d %s' % hx(text)]
+    approx = len(text) + 60
+    cuts = sorted(set(rng.randrange(1, approx) for _ in range(rng.choice([3, 10, 40]))))
+    ops.append('feedsent 1 0 %s' % ','.join(map(str, cuts)))
+    return ops
+
+
 def gen(rng, tier):
     q = tier == 'quick'
     # malformed op stream: both sides answer bad-op
@@ -464,6 +680,38 @@ def gen(rng, tier):
            'a note 0', 'adv 3000', 'adv 3000']
     yield ['world P 1 1', 'cb q0.0', 'hd s5 c0 v0:1', 'hd as n3', 'a svc 0 0', 'b svc 0 0', 'a req 0 0', 'b req 0 0', 'dlv ab 0', 'dlv ba 0', 'dlv ba 0',
            'dlv ab 0', 'dlv ab 0', 'dlv ba 0', 'adv 1000', 'dlv ab 0', 'dlv ba 0', 'adv 2000']
+    # round 6 directed: malformed forms of the new ops (bad-op on both sides)
+    yield ['open 0 R', 'lensweep 0 5 4', 'lensweep 0 0 200001', 'lensweep 1 0 5', 'pj 0 i1', 'pj 0 [i01]', 'pj 0 {6b:i1,6b:i2}', 'pj 0 [s7f]',
+           'pj 0 [sA1]', 'pj 0 [i1', 'pj 0 [i1]]', 'pj 9 []', 'pj 0 []', 'pj 0 {}', 'gf x {} 6b', 'gf i {6b:i1} 6B', 'gf i {6b:i1} 6', 'hf z {} 6b',
+           'gf i {6b:i1} 6b', 'hf o {6b:{}} 6b', 'rpcsweep R 0 10']
+    yield ['rpcsweep X 0 10', 'rpcsweep R 10 0', 'rpcsweep R 0 10', 'rpcsweep R 0 10', 'open 0 P', 'feed 0 5b5d']
+    yield ['rpc R 513', 'rpc R 512', 'jump 2147483648', 'jump x', 'jump 99999999999', 'tx maybe', 'reqsync 0 0', 'reqsync 0 8 0', 'adv 5000000001',
+           'adv 99999999999', 'jump 5', 'req 0 0', 'tx off', 'req 0 0', 'tx on', 'reqsync 0 0 5', 'adv 5000000000']
+    yield ['world R 1 1', 'a jump 5', 'a tx off', 'a reqsync 0 0 0', 'a req 0 0', 'dlv ab 0', 'dlv ba 0']
+    # directed: ids at the top of int; the request at INT_MAX is refused (its ++id_alloc_ would overflow)
+    yield ['rpc R 2', 'cb', 'jump 2147483645', 'req 0 0', 'req 0 0', 'req 0 0', 'rsp 2147483648 0', 'rsp 2147483647 0', 'rsp 2147483646 5', 'rsp 6442450942 0',
+           'rsp -2147483648 0', 'adv 2000', 'req 0 0', 'jump 0', 'req 0 0', 'rsp 1 0']
+    yield ['rpc H 3', 'cb', 'req 0 0', 'jump 0', 'req 0 0', 'rsp 1 0', 'adv 3000', 'adv 1000']                     # id reused while pending: the first callback is lost
+    yield ['rpc P 3', 'cb', 'req 0 0', 'rsp 1 0', 'adv 2000', 'jump 0', 'req 0 0', 'adv 1000', 'rsp 1 0']          # id reused while in the ring: early timeout
+    # directed: response ids that are not int literals, through the real dispatch
+    yield ['open 0 P', 'pj 0 {6a736f6e727063:s322e30,6964:s31,726573756c74:i7}', 'pj 0 {6a736f6e727063:s322e30,6964:D,726573756c74:i7}',
+           'pj 0 {6a736f6e727063:s322e30,6964:s31,6572726f72:{636f6465:i5}}', 'pj 0 {6a736f6e727063:s322e30,6964:i4294967297,6572726f72:{636f6465:i5}}',
+           'pj 0 {6a736f6e727063:s322e30,6964:s61,6d6574686f64:s6d}', 'pj 0 {6a736f6e727063:s322e30,6964:i1,726573756c74:i7,6572726f72:{636f6465:i5}}',
+           'pj 0 {6a736f6e727063:s322e30,6964:i1}', 'pj 0 {6964:i1,726573756c74:i7}', 'pj 0 {6a736f6e727063:s312e30,6964:i1,726573756c74:i7}',
+           'pj 0 {6a736f6e727063:s312e30,6d6574686f64:s6d}', 'pj 0 {6a736f6e727063:i2,6d6574686f64:s6d}', 'pj 0 [[{6a736f6e727063:s322e30,6d6574686f64:s61}],i1,[[]],{6a736f6e727063:s322e30,6d6574686f64:s62}]']
+    # directed: transport down; the transport answering inside the send callback
+    yield ['rpc R 2', 'cb', 'cb i1:0', 'tx off', 'req 0 0', 'req 0 0', 'adv 1000', 'tx on', 'req 0 0', 'adv 1000', 'adv 1000', 'rsp 1 0']
+    yield ['rpc H 2', 'cb i1:0 q1.0', 'cb', 'reqsync 0 0 0', 'reqsync 1 1 5', 'rsp 1 0', 'rsp 2 0', 'adv 3000']
+    yield ['rpc R 512', 'cb', 'req 0 0', 'adv 511000', 'adv 999', 'adv 1', 'req 0 0', 'adv 4294967296']
+    for ops in gen_lensweeps(tier):
+        yield ops
+    n6 = 40 if q else 600
+    for _ in range(n6): yield gen_padded(rng)
+    for _ in range(n6): yield gen_dispatch(rng)
+    for _ in range(n6): yield gen_getters(rng)
+    for _ in range(n6): yield gen_ids(rng)
+    for _ in range(n6): yield gen_faults(rng)
+    for _ in range(12 if q else 100): yield gen_rawbig(rng)
     n = 120 if q else 2500
     for i in range(n):
         yield gen_roundtrip(rng, exhaustive=(i % 6 == 0))
@@ -481,7 +729,9 @@ NT = ('resumed-frame', 'multi-frame', 'hdr-need-body-extreme-len', 'raw-unbalanc
       'rsp-late-or-dup', 'rsp-unknown', 'rsp-id-beyond-int', 'deep', 'nested-fire', 'cb-request', 'cb-respond', 'cb-cleanup',
       'svc-changed-in-cb', 'misuse', 'respond-timeout', 'inreq-method-not-found', 'srsp-unawaited',
       'w-timeout-fired', 'w-rsp-late-or-dup', 'w-rsp-unknown', 'w-nested-fire', 'w-cb-request', 'w-cb-respond', 'w-cb-cleanup',
-      'w-svc-changed-in-cb', 'w-misuse', 'w-respond-timeout', 'w-inreq-method-not-found', 'w-srsp-unawaited', 'w-dlv-reordered')
+      'w-svc-changed-in-cb', 'w-misuse', 'w-respond-timeout', 'w-inreq-method-not-found', 'w-srsp-unawaited', 'w-dlv-reordered',
+      'lensweep', 'rpcsweep', 'pj-ignored', 'pj-batch', 'pj-request', 'pj-response', 'gf-hit', 'gf-miss', 'hf', 'jump-back', 'jump-intmax',
+      'req-at-intmax-refused', 'id-near-intmax', 'tx-off-dropped', 'tx-off-timeout', 'reqsync', 'adv-beyond-2^31', 'rpc-many-slots')
 
 
 def nontrivial(ops, model_lines):
@@ -508,8 +758,12 @@ LEVEL_TEXT = ('Lean 4 theorems over a hand-written model: header framing (32-bit
               'once, at the N-th tick, with the timeout code; the first matching response before that fires it with its code; other ids '
               '(unknown, duplicate, late, beyond int — also fed from inside callbacks) are ignored; monitor invariant (timer on iff something '
               'monitored) for every program incl. cleanup() from callbacks; a cleaned-up object has nothing pending and never fires again. '
-              'Tied to the code on every run by trace acceptance of the real protos / real Rpc (ASan+UBSan).')
+              'Ids: counter and pending ids are C++ ints in every reachable state, at-most-once for every id allocation (wrap, reuse), '
+              'counterexamples for exactly-once across the wrap; onRecvJson dispatch total over every JSON value (ids/codes handed to callbacks '
+              'are ints without narrowing, non-int response ids complete nothing); GetField leaves its output untouched on failure. '
+              'Tied to the code on every run by trace acceptance of the real protos / real Rpc (ASan+UBSan) incl. a length sweep of the real encoders.')
 LEVEL_NOTE = ('trusted: Lean kernel; hand-written model + trace-acceptance tie (coverage bounded by the generator, measured); '
-              'nlohmann parse/dump abstract (oracle); stack depth and int truncation of ids outside the model')
+              'nlohmann parse/dump abstract (oracle); stack depth outside the model; request ids carried at the width of int up to '
+              'INT_MAX (C14_id_width), the overflowing 2^31-th request() is refused on both sides (theorem-only counterexample)')
 TECHNIQUE = 'Lean 4 proofs (induction over token grammars / op sequences, invariants) + trace acceptance of the implementation'
 DESIGN_REF = 'DESIGN.md §6 C14, §7 row 8'
